@@ -118,7 +118,7 @@ Definition one_msg (r : role) (l : list N) : hdr :=
   end.
 
 Inductive paykind := KPiece | KExt.
-Inductive rmode := RIdle | RPay (k : paykind) (left : N) | RClosed.
+Inductive rmode := RIdle | RPay (k : paykind) (lft : N) | RClosed.
 
 Definition pay_done (k : paykind) : msg := match k with KPiece => MPieceDone | KExt => MExtDone end.
 
@@ -142,18 +142,18 @@ Fixpoint feed (fuel : nat) (h : HS) (m : rmode) (l : list N) : pres :=
   | S f =>
     match m with
     | RClosed => PRes h RClosed [] []
-    | RPay k left =>
+    | RPay k lft =>
       match l with
-      | [] => PRes h (RPay k left) [] []
+      | [] => PRes h (RPay k lft) [] []
       | _ :: _ =>
-        if N.of_nat (length l) <? left then
+        if N.of_nat (length l) <? lft then
           (* down_chunk_from_buffer: "!finished && remaining != 0" is the internal_error test;
              all of l was consumed, so remaining = 0 *)
-          PRes h (RPay k (left - N.of_nat (length l))) [] []
+          PRes h (RPay k (lft - N.of_nat (length l))) [] []
         else
           let (h', v) := handle h (pay_done k) in
           match v with
-          | VCont => pcons (EMsg (pay_done k)) (feed f h' RIdle (skipn (N.to_nat left) l))
+          | VCont => pcons (EMsg (pay_done k)) (feed f h' RIdle (skipn (N.to_nat lft) l))
           | VClose => PRes h' RClosed [] [EMsg (pay_done k); EClose RHandler]
           | VFatal => PRes h' RClosed [] [EMsg (pay_done k); EFatal]
           end
@@ -210,6 +210,7 @@ Variable short : nat -> bool.   (* leech, empty buffer: request_list()->pipe_siz
 
 Definition cap (k : nat) : nat := S (budget k).
 Definition bufsz : nat := N.to_nat Params.c03_buffer_size.
+Definition bufcap : nat := N.to_nat Params.c03_buffer_tmpl.   (* ProtocolBuffer<512> *)
 Definition target_of (s : mst) : nat :=
   if is_leech rl && (length (m_buf s) =? 0)%nat && short (m_cnt s)
   then N.to_nat Params.c03_sizeof_piece else bufsz.
@@ -234,16 +235,16 @@ Fixpoint ev (fuel : nat) (s : mst) (avail : list N) : mres :=
         | [] => MRet s avail []                      (* length == 0: move_unused(); return *)
         | _ :: _ =>
           let send := (n0 + length got)%nat in
-          if (bufsz <? send)%nat then MFault else     (* write past the 512-byte buffer *)
+          if (bufcap <? send)%nat then MFault else    (* write past the 512-byte buffer *)
           match feed (S send) (m_h s) RIdle (m_buf s ++ got) with
           | PFault => MFault
           | POut => MOut
           | PRes h1 m1 b1 es1 =>
             (* read_message(): an incomplete extension message tries one recv itself *)
             match m1 with
-            | RPay KExt left =>
+            | RPay KExt lft =>
               let c1 := S (m_cnt s) in
-              let want2 := Nat.min (N.to_nat left) (cap c1) in
+              let want2 := Nat.min (N.to_nat lft) (cap c1) in
               let got2 := firstn want2 avail1 in
               let avail2 := skipn want2 avail1 in
               match feed (S (length got2)) h1 m1 got2 with
@@ -268,14 +269,14 @@ Fixpoint ev (fuel : nat) (s : mst) (avail : list N) : mres :=
         | [] => MRet s avail []     (* not reachable: target >= 13 *)
         | _ :: _ => MRet (mk_mst (m_h s) RClosed [] (m_cnt s)) avail [EClose RFull]
         end
-    | RPay k left =>
-      let want := Nat.min (N.to_nat left) (cap (m_cnt s)) in
+    | RPay k lft =>
+      let want := Nat.min (N.to_nat lft) (cap (m_cnt s)) in
       let got := firstn want avail in
       let avail1 := skipn want avail in
       match got with
       | [] => MRet s avail []
       | _ :: _ =>
-        match feed (S (length got)) (m_h s) (RPay k left) got with
+        match feed (S (length got)) (m_h s) (RPay k lft) got with
         | PFault => MFault
         | POut => MOut
         | PRes h1 m1 b1 es1 =>
